@@ -3898,6 +3898,8 @@ func CloneExpr(expr Expr) Expr {
 		return &IntegerLiteral{Val: expr.Val}
 	case *UnsignedLiteral:
 		return &UnsignedLiteral{Val: expr.Val}
+	case *NilLiteral:
+		return &NilLiteral{}
 	case *NumberLiteral:
 		return &NumberLiteral{Val: expr.Val}
 	case *ParenExpr:
